@@ -1,0 +1,23 @@
+//go:build verif
+
+package harcollector
+
+import (
+	public_types "lunar/engine/streams/public-types"
+)
+
+// VerifObfuscateBody exposes the HAR collector's body obfuscation (selection of
+// the body exclusions by their "$.request.body" / "$.response.body" prefix
+// followed by Obfuscator.ObfuscateJSON) to the verification harness.
+func VerifObfuscateBody(
+	exclusions []string,
+	apiStream public_types.APIStreamI,
+	body string,
+	responseBody bool,
+) string {
+	obfuscator := newAPIStreamObfuscator(true, exclusions, apiStream)
+	if responseBody {
+		return obfuscator.ObfuscateResponseBody(body)
+	}
+	return obfuscator.ObfuscateRequestBody(body)
+}
